@@ -1,77 +1,44 @@
-import FpgoVerif.Model.C15Bcq
-import FpgoVerif.Proofs.C15Tac
-/-! Invariants of the BufferedChannelQueue system (users + closing goroutine + loader), code after c8ecf0a. -/
+import FpgoVerif.Proofs.C15BcqStep0
+import FpgoVerif.Proofs.C15BcqStep1
+import FpgoVerif.Proofs.C15BcqStep2
+import FpgoVerif.Proofs.C15BcqStep3
+import FpgoVerif.Proofs.C15BcqStep4
+import FpgoVerif.Proofs.C15BcqStep5
+import FpgoVerif.Proofs.C15BcqStep6
+import FpgoVerif.Proofs.C15BcqStep7
+import FpgoVerif.Proofs.C15BcqStep8
+import FpgoVerif.Proofs.C15BcqStep9
+/-! Bcq system: assembly of the per-program-counter preservation lemmas (C15BcqStep*.lean, built in
+    parallel), reachability, progress. -/
 namespace FpgoVerif.C15.Bq
 
-theorem gstep_some {s pc ch s' nx} (h : gstep s pc ch = some (s', nx)) :
-    0 < s.cnt (kind pc) ∧ ∃ s1, step s pc ch = some (s1, nx) ∧ s' = { s1 with cnt := move s1.cnt (kind pc) nx } := by
-  unfold gstep at h
-  split at h
-  · simp at h
-  · rename_i hc
-    split at h
-    · simp at h
-    · rename_i s1 nx1 hs
-      simp at h
-      obtain ⟨rfl, rfl⟩ := h
-      exact ⟨Nat.pos_of_ne_zero hc, s1, hs, rfl⟩
-
-structure Inv (s : St) : Prop where
-  fn : s.fixNotify = true
-  fl : s.fixLoader = true
-  nopanic : s.panic = false
-  w1 : s.cnt .o1 + s.cnt .c1 + s.cnt .c2 + s.cnt .l3 + s.cnt .l4 ≤ 1
-  wr : 0 < s.cnt .o1 + s.cnt .c1 + s.cnt .c2 + s.cnt .l3 + s.cnt .l4 → s.cnt .n2 = 0
-  oneC : s.cnt .c0 + s.cnt .c1 + s.cnt .c2 ≤ 1
-  startedC : s.closeStarted = false → s.cnt .c0 + s.cnt .c1 + s.cnt .c2 = 0
-  startedFlag : s.flag = true → s.closeStarted = true
-  n2flag : 0 < s.cnt .n2 → s.flag = false
-  lflag : 0 < s.cnt .l3 + s.cnt .l4 → s.flag = false
-  cflag : 0 < s.cnt .c1 + s.cnt .c2 → s.flag = true
-  loadFlag : s.loadClosed = true → s.flag = true ∧ s.cnt .c0 + s.cnt .c1 = 0
-  chanFlag : s.chanClosed = true → s.loadClosed = true ∧ s.cnt .c0 + s.cnt .c1 + s.cnt .c2 = 0
-  c2load : 0 < s.cnt .c2 → s.loadClosed = true
-  doneAll : s.closeDone = true → s.chanClosed = true
-  doneFlag : s.closeDone = true → s.flag = true
-  late0 : s.late = 0
-  startedDone : s.closeStarted = true → s.cnt .c0 + s.cnt .c1 + s.cnt .c2 = 0 → s.closeDone = true
-
-theorem inv_init (c b : Nat) : Inv (init c b true true) := by
-  constructor <;> simp [init]
-
-set_option maxHeartbeats 1600000 in
 theorem inv_spawn {s s' pc} (h : spawn s pc = some s') (hi : Inv s) : Inv s' := by
-  obtain ⟨fn, fl, nopanic, w1, wr, oneC, startedC, startedFlag, n2flag, lflag, cflag, loadFlag, chanFlag, c2load, doneAll, doneFlag, late0, startedDone⟩ := hi
-  have b1 := Bool.toNat_le s.flag; have b2 := Bool.toNat_le s.loadClosed; have b3 := Bool.toNat_le s.chanClosed
-  have b4 := Bool.toNat_le s.closeStarted; have b5 := Bool.toNat_le s.closeDone; have b6 := Bool.toNat_le s.panic
-  have b7 := Bool.toNat_le s.fixNotify; have b8 := Bool.toNat_le s.fixLoader
-  cases pc <;> (try (rename_i k; cases k)) <;> simp [spawn, inc] at h
-  all_goals (try (obtain ⟨hs, rfl⟩ := h))
-  all_goals (try subst h)
-  all_goals (constructor <;> (try simp [updK]) <;> c15arith)
+  have hcover : pcGroup pc = 0 ∨ pcGroup pc = 1 ∨ pcGroup pc = 2 ∨ pcGroup pc = 3 ∨ pcGroup pc = 4 ∨ pcGroup pc = 5 ∨ pcGroup pc = 6 ∨ pcGroup pc = 7 ∨ pcGroup pc = 8 ∨ pcGroup pc = 9 := by cases pc <;> simp [pcGroup]
+  rcases hcover with hg | hg | hg | hg | hg | hg | hg | hg | hg | hg
+  · exact inv_spawn_0 hg h hi
+  · exact inv_spawn_1 hg h hi
+  · exact inv_spawn_2 hg h hi
+  · exact inv_spawn_3 hg h hi
+  · exact inv_spawn_4 hg h hi
+  · exact inv_spawn_5 hg h hi
+  · exact inv_spawn_6 hg h hi
+  · exact inv_spawn_7 hg h hi
+  · exact inv_spawn_8 hg h hi
+  · exact inv_spawn_9 hg h hi
 
-set_option maxHeartbeats 6400000 in
 theorem inv_step {s s' nx pc ch} (h : gstep s pc ch = some (s', nx)) (hi : Inv s) : Inv s' := by
-  obtain ⟨fn, fl, nopanic, w1, wr, oneC, startedC, startedFlag, n2flag, lflag, cflag, loadFlag, chanFlag, c2load, doneAll, doneFlag, late0, startedDone⟩ := hi
-  obtain ⟨hc, s1, hs, rfl⟩ := gstep_some h
-  clear h
-  have b1 := Bool.toNat_le s.flag; have b2 := Bool.toNat_le s.loadClosed; have b3 := Bool.toNat_le s.chanClosed
-  have b4 := Bool.toNat_le s.closeStarted; have b5 := Bool.toNat_le s.closeDone; have b6 := Bool.toNat_le s.panic
-  have b7 := Bool.toNat_le s.fixNotify; have b8 := Bool.toNat_le s.fixLoader
-  cases pc <;> (try (rename_i k; cases k)) <;>
-    simp only [step, kind, writers, readers, afterNotify, lateIf, fn, fl, eq_self, reduceIte, ite_true, ite_false, Bool.true_and, Bool.and_true] at hs hc
-  all_goals (repeat' split at hs)
-  all_goals (try (simp only [Option.some.injEq, Prod.mk.injEq] at hs))
-  all_goals (try (obtain ⟨rfl, rfl⟩ := hs))
-  all_goals (try (simp at hs))
-  all_goals (try (obtain ⟨hg, hs⟩ := hs))
-  all_goals (repeat' split at hs)
-  all_goals (try (simp only [Option.some.injEq, Prod.mk.injEq] at hs))
-  all_goals (try (obtain ⟨rfl, rfl⟩ := hs))
-  all_goals (try (simp at hs))
-  all_goals (try (obtain ⟨rfl, rfl⟩ := hs))
-  all_goals (try subst_vars)
-  all_goals (constructor <;> (try simp [move, kind, updK]) <;> c15arith)
+  have hcover : pcGroup pc = 0 ∨ pcGroup pc = 1 ∨ pcGroup pc = 2 ∨ pcGroup pc = 3 ∨ pcGroup pc = 4 ∨ pcGroup pc = 5 ∨ pcGroup pc = 6 ∨ pcGroup pc = 7 ∨ pcGroup pc = 8 ∨ pcGroup pc = 9 := by cases pc <;> simp [pcGroup]
+  rcases hcover with hg | hg | hg | hg | hg | hg | hg | hg | hg | hg
+  · exact inv_step_0 hg h hi
+  · exact inv_step_1 hg h hi
+  · exact inv_step_2 hg h hi
+  · exact inv_step_3 hg h hi
+  · exact inv_step_4 hg h hi
+  · exact inv_step_5 hg h hi
+  · exact inv_step_6 hg h hi
+  · exact inv_step_7 hg h hi
+  · exact inv_step_8 hg h hi
+  · exact inv_step_9 hg h hi
 
 theorem inv_reach {c b s} (h : Reach c b true true s) : Inv s := by
   induction h with
